@@ -482,6 +482,10 @@ func checkF3(c *fw.Ctx) {
 					c.Undecided(rule, construct, "the constructor works through "+od+": where the room id is validated is not visible to the rule")
 					continue
 				}
+				if fw.DeferRewritesResults(fn) {
+					c.Undecided(rule, construct, "the constructor's named results are rewritten by a deferred function: which returns are successes is not visible to the gate")
+					continue
+				}
 			}
 			c.Check(okV, rule, construct, c.P.Pos(fn.Pos()), "", why+": RoomID() panics on such an event")
 		}
@@ -1232,6 +1236,12 @@ func checkF8(c *fw.Ctx) {
 						c.Undecided(rule, construct, "the dereference is dominated by a test through the repository helper "+h+" applied to the event: the rule does not know whether it implies a state key")
 						continue
 					}
+				}
+				if guarded == "" && fn.Object() != nil && !fn.Object().Exported() && fn.Signature.Recv() != nil && strings.Contains(ev, "recv") {
+					// the event is kept in the unexported object whose method this is (a phase of a
+					// pipeline): the phase that established its kind ran earlier, in another method
+					c.Undecided(rule, construct, "the event is a field of the receiver of an unexported method; the guards of the earlier phases were not followed")
+					continue
 				}
 				if guarded != "" {
 					c.Ok(rule, construct, c.P.Pos(fw.InstrPos(u)), guarded)
